@@ -524,6 +524,108 @@ struct AppTokenWorld : World
             break;
           }
           case K_MOVE_ASSIGN: {
+            if ((uint64_t)op.a[1] % 8 == 6) {
+              // an owner of this sandbox is overwritten by an owner that belongs to ANOTHER live sandbox of the same type: the
+              // token it held is given back to the table that issued it (this sandbox's), the token it takes over stays valid
+              // in the other sandbox, and nothing else in either table changes
+              size_t within = 0;
+              for (auto& kv : model)
+                within += kv.first <= (uint64_t)limit;
+              if (within >= (size_t)limit)
+                break;
+              c.probe("owner_overwritten_by_owner_of_another_sandbox");
+              auto sb2p = std::make_unique<Sandbox>();
+              Sandbox& sb2 = *sb2p;
+              if constexpr (is_sim)
+                sb2.create_sandbox(0);
+              else
+                sb2.create_sandbox();
+              int* r = &g_objs[next_obj++ % 8192];
+              int* q = &g_objs[next_obj++ % 8192];
+              std::vector<std::unique_ptr<Owner>> pre; // tokens already taken in the other sandbox: the two tokens coincide in some runs and differ in others
+              std::unique_ptr<Owner> d, f;
+              uint64_t t1 = 0, t2 = 0;
+              auto leak = [&] { // after a deviation the objects are not trusted to run their destructors
+                (void)d.release();
+                (void)f.release();
+                for (auto& x : pre)
+                  (void)x.release();
+                (void)sb2p.release();
+              };
+              size_t npre = (uint64_t)op.a[0] % 3;
+              Outcome o = attempt([&] {
+                for (size_t k = 0; k < npre; k++)
+                  pre.push_back(std::make_unique<Owner>(sb2.get_app_pointer(&g_objs[k])));
+                d = std::make_unique<Owner>(sb.get_app_pointer(r));
+                f = std::make_unique<Owner>(sb2.get_app_pointer(q));
+                t1 = (uint64_t)(uintptr_t)d->UNSAFE_sandboxed(sb);
+                t2 = (uint64_t)(uintptr_t)f->UNSAFE_sandboxed(sb2);
+              });
+              if (o != OK || t1 == 0 || t2 == 0 || t1 > (uint64_t)limit || model.count(t1)) {
+                c.violate("C15", o != OK ? "registration_refused_with_free_token@move_assign" : t1 == 0 || t2 == 0 ? "zero_token@move_assign" : t1 > (uint64_t)limit ? "token_over_limit@move_assign" : "duplicate_token@move_assign", "t1=%llu t2=%llu %s", (unsigned long long)t1, (unsigned long long)t2, oname(o));
+                leak();
+                break;
+              }
+              c.ev("foreign overwrite t1=%llu t2=%llu pre=%zu", (unsigned long long)t1, (unsigned long long)t2, npre);
+              if (t1 == t2)
+                c.probe("overwritten_and_overwriting_owner_hold_equal_tokens_of_different_sandboxes");
+              Outcome ao = attempt([&] { *d = std::move(*f); });
+              if (ao != OK) {
+                c.violate("C15", "owner_overwrite_across_sandboxes_fails@move_assign", "t1=%llu t2=%llu %s msg=%s", (unsigned long long)t1, (unsigned long long)t2, oname(ao), g_last_abort_msg.c_str());
+                leak();
+                break;
+              }
+              if (!f->is_unregistered() || d->is_unregistered()) {
+                c.violate("C15", "moved_from_owner_not_inert@move_assign", "across sandboxes: source inert=%d target inert=%d", (int)f->is_unregistered(), (int)d->is_unregistered());
+                leak();
+                break;
+              }
+              {
+                int* got = nullptr;
+                Outcome l1 = raw_lookup(t1, got);
+                if (l1 != ABORT) {
+                  c.violate("C15", "released_token_still_resolves@move_assign", "token=%llu belonged to an owner that an owner of another sandbox overwrote", (unsigned long long)t1);
+                  leak();
+                  break;
+                }
+                int* got2 = nullptr;
+                auto tt = d->to_tainted();
+                Outcome l2 = attempt([&] { got2 = sb2.lookup_app_ptr(tt); });
+                if (l2 != OK || got2 != q) {
+                  c.violate("C15", "live_token_wrong_pointer@move_assign", "token=%llu of the other sandbox after it changed owner: %s", (unsigned long long)t2, oname(l2));
+                  leak();
+                  break;
+                }
+                bool bad = false;
+                for (size_t k = 0; k < pre.size() && !bad; k++) {
+                  int* gk = nullptr;
+                  auto tk = pre[k]->to_tainted();
+                  Outcome lk = attempt([&] { gk = sb2.lookup_app_ptr(tk); });
+                  if (lk != OK || gk != &g_objs[k]) {
+                    c.violate("C15", "live_token_wrong_pointer@move_assign", "bystander token %zu of the other sandbox: %s", k, oname(lk));
+                    bad = true;
+                  }
+                }
+                if (bad) {
+                  leak();
+                  break;
+                }
+              }
+              Outcome co = attempt([&] {
+                d.reset();
+                f.reset();
+                pre.clear();
+                sb2.destroy_sandbox();
+              });
+              if (co != OK) {
+                c.violate("C15", "owner_release_fails@move_assign", "owners of the other sandbox: %s msg=%s", oname(co), g_last_abort_msg.c_str());
+                leak();
+                break;
+              }
+              if (std::find(released.begin(), released.end(), t1) == released.end())
+                released.push_back(t1);
+              break;
+            }
             auto ex = existing();
             if (ex.size() < 2)
               break;
